@@ -214,6 +214,29 @@ def run(st, tier, seed):
             hb.entry = "top"
             hist[0] = hb; hist[1] = hb
             res.count("directed:undefined-name-defined-by-an-earlier-component")
+        elif i % 16 == 4:
+            # a sub-system file Sub.sys beside top.sys, compiled (from its own directory, so by the same relative file names) after ANOTHER
+            # project whose Sub.sys has the same name but another declaration (leading comment lines, a parameter, ports in the other order):
+            # nothing read from the earlier project's file may be used for this one (seed c18-x: parsed declarations cached by file name as given)
+            ln = rng.randint(4, 7)
+            leaf = 'declare component Leaf: x -> y\nsequence x = "%dN"\nsequence y = "%dN"\nstrand A = x y\nstructure S = A : %d.\n' % (ln, ln, 2 * ln)
+            b = progen.Bundle()
+            b.texts["Leaf.comp"] = leaf
+            b.texts["Sub.sys"] = "declare system Sub: p -> q\nimport Leaf\ncomponent g = Leaf: p -> q\n"
+            b.texts["top.sys"] = "declare system Top: ->\nimport Sub\ncomponent s1 = Sub: a -> b\ncomponent s2 = Sub: b -> c\n"
+            b.entry = "top"; b.directed = True; b.same_named_subsystem = True
+            hb = progen.Bundle()
+            hb.texts["Leaf.comp"] = leaf
+            hb.texts["Sub.sys"] = ("# the gate of the other project\n" * rng.randint(0, 2)) + rng.choice([
+                "declare system Sub(k): q -> p\nimport Leaf\ncomponent g = Leaf: q -> p\n",
+                "declare system Sub: q + r -> p\nimport Leaf\ncomponent g = Leaf: q -> p\ncomponent h = Leaf: r -> p\n",
+                "\ndeclare system Sub: q -> p\nimport Leaf\ncomponent g = Leaf: q -> p\n"])
+            args_ = "(3)" if "Sub(k)" in hb.texts["Sub.sys"] else ""
+            ins_ = "a + b" if "q + r" in hb.texts["Sub.sys"] else "a"
+            hb.texts["top.sys"] = "declare system Top: ->\nimport Sub\ncomponent s1 = Sub%s: %s -> c\n" % (args_, ins_)
+            hb.entry = "top"
+            hist[0] = hb
+            res.count("directed:same-named-subsystem-file-in-the-earlier-project")
         elif i % 16 == 5:
             b = directed_anon_rows(rng)
             res.count("directed:several-anonymous-regions-per-statement")
@@ -283,6 +306,8 @@ def run(st, tier, seed):
             for fmt in ("pil", "des"):
                 for c in range(nconf if fmt == "pil" else max(2, nconf // 2)):
                     where = rng.choice(["proj", "root", "deep"])
+                    if getattr(b, "same_named_subsystem", False) and c % 2 == 1:
+                        where = "proj"              # compiled from its own directory: the same relative file names as the earlier project
                     cwd = {"proj": os.path.join(root, "proj"), "root": root, "deep": os.path.join(root, "proj", "deep", "er")}[where]
                     rel = os.path.relpath(os.path.join(root, "proj"), cwd)
                     pj = (lambda p: os.path.normpath(os.path.join(rel, p)))
@@ -299,6 +324,10 @@ def run(st, tier, seed):
                                          "includes": [os.path.relpath(os.path.join(root, "hist%d" % k, x), cwd) for x in hist[k].includes],
                                          "out": os.path.relpath(os.path.join(root, "hist%d" % k, "o.pil"), cwd),
                                          "save": os.path.relpath(os.path.join(root, "hist%d" % k, "o.save"), cwd)}) for k in range(nh)]}
+                    if getattr(b, "same_named_subsystem", False) and c % 2 == 1:
+                        job["history"] = [{"cwd": os.path.join(root, "hist0"), "entry": hist[0].entry, "includes": [], "out": "o.pil", "save": "o.save"}]
+                        nh = 1
+                        res.count("history:same-relative-file-names-another-declaration")
                     if getattr(b, "earlier_has_same_template", False) and c % 2 == 0:
                         # the earlier project (its own Gate.comp beside its top.sys) is compiled from THIS directory with the same
                         # include-list object; afterwards `import Gate` must still find the first include directory's Gate
